@@ -1,12 +1,421 @@
 package sym
 
-import "go/types"
+import (
+	"fmt"
+	"go/types"
+	"sort"
 
-type ydoc struct{}
+	"crdverif/smt"
 
-func (e *Engine) ydecodeDoc(d *ydoc, t types.Type, dst *Value) Value {
-	e.abort(abortEngine, "yaml document round trip not modelled yet")
+	"golang.org/x/tools/go/ssa"
+	yaml "gopkg.in/yaml.v3"
+)
+
+// ynode is a marshalled YAML document kept as a tree whose scalar leaves may be symbolic.
+type ynode struct {
+	kind  int // 0 null, 1 scalar, 2 seq, 3 map
+	tag   string
+	val   Value // scalar: string (str) or int64/uint64/bool/float64 or *smt.Term / *SymStr
+	valT  types.Type
+	items []*ynode
+	keys  []string
+}
+
+type ydoc struct {
+	root *ynode
+}
+
+func (e *Engine) hasMarshalYAML(t types.Type) *ssa.Function {
+	m := e.findMethod(t, "MarshalYAML")
+	if m == nil {
+		return nil
+	}
+	sig := m.Signature
+	if sig.Params().Len() == 0 && sig.Results().Len() == 2 {
+		return m
+	}
 	return nil
 }
 
-func registerYAMLMarshal(e *Engine) {}
+func (e *Engine) yIsZero(t types.Type, v Value) bool {
+	switch u := under(t).(type) {
+	case *types.Pointer:
+		p, ok := v.(*Value)
+		return ok && p == nil
+	case *types.Slice:
+		return len(v.(sliceV).a) == 0
+	case *types.Map:
+		m := v.(*mapObj)
+		return m == nil || len(m.entries) == 0
+	case *types.Interface:
+		return v.(iface).t == nil
+	case *types.Basic:
+		if isSym(v) {
+			e.abort(abortEngine, "yaml omitempty on a symbolic scalar")
+		}
+		switch x := v.(type) {
+		case string:
+			return x == ""
+		case bool:
+			return !x
+		case int64:
+			return x == 0
+		case uint64:
+			return x == 0
+		case float64:
+			return x == 0
+		}
+	case *types.Struct:
+		sv := v.(structV)
+		for i := 0; i < u.NumFields(); i++ {
+			if !u.Field(i).Exported() {
+				continue
+			}
+			if !e.yIsZero(u.Field(i).Type(), sv[i]) {
+				return false
+			}
+		}
+		return true
+	case *types.Array:
+		return u.Len() == 0
+	}
+	return false
+}
+
+func (e *Engine) ymarshal(t types.Type, v Value, depth int) (*ynode, Value) {
+	if depth > 50 {
+		e.abort(abortEngine, "yaml marshal: nesting too deep")
+	}
+	if pt, ok := under(t).(*types.Pointer); ok {
+		p, _ := v.(*Value)
+		if p == nil {
+			return &ynode{kind: 0}, nil
+		}
+		if m := e.hasMarshalYAML(t); m != nil {
+			return e.ymarshalVia(m, v, depth)
+		}
+		return e.ymarshal(pt.Elem(), *p, depth+1)
+	}
+	if it, ok := under(t).(*types.Interface); ok {
+		_ = it
+		iv := v.(iface)
+		if iv.t == nil {
+			return &ynode{kind: 0}, nil
+		}
+		return e.ymarshal(iv.t, iv.v, depth+1)
+	}
+	if m := e.hasMarshalYAML(t); m != nil {
+		return e.ymarshalVia(m, v, depth)
+	}
+	switch u := under(t).(type) {
+	case *types.Struct:
+		sv := v.(structV)
+		n := &ynode{kind: 3}
+		for _, f := range yamlFields(u) {
+			ft := u.Field(f.index).Type()
+			if f.inline {
+				e.abort(abortEngine, "yaml inline fields not modelled")
+			}
+			if f.omitempty && e.yIsZero(ft, sv[f.index]) {
+				continue
+			}
+			c, er := e.ymarshal(ft, sv[f.index], depth+1)
+			if er != nil {
+				return nil, er
+			}
+			n.keys = append(n.keys, f.key)
+			n.items = append(n.items, c)
+		}
+		return n, nil
+	case *types.Slice:
+		s := v.(sliceV)
+		n := &ynode{kind: 2}
+		for _, x := range s.a {
+			c, er := e.ymarshal(u.Elem(), x, depth+1)
+			if er != nil {
+				return nil, er
+			}
+			n.items = append(n.items, c)
+		}
+		return n, nil
+	case *types.Array:
+		n := &ynode{kind: 2}
+		for _, x := range v.(arrayV) {
+			c, er := e.ymarshal(u.Elem(), x, depth+1)
+			if er != nil {
+				return nil, er
+			}
+			n.items = append(n.items, c)
+		}
+		return n, nil
+	case *types.Map:
+		m := v.(*mapObj)
+		n := &ynode{kind: 3}
+		if m == nil {
+			return n, nil
+		}
+		type kv struct {
+			k string
+			v Value
+		}
+		var kvs []kv
+		for _, en := range m.entries {
+			ks, ok := en.k.(string)
+			if !ok {
+				e.abort(abortEngine, "yaml marshal: map with non-string or symbolic keys")
+			}
+			kvs = append(kvs, kv{ks, en.v})
+		}
+		sort.Slice(kvs, func(i, j int) bool { return kvs[i].k < kvs[j].k })
+		for _, x := range kvs {
+			c, er := e.ymarshal(u.Elem(), x.v, depth+1)
+			if er != nil {
+				return nil, er
+			}
+			n.keys = append(n.keys, x.k)
+			n.items = append(n.items, c)
+		}
+		return n, nil
+	case *types.Basic:
+		n := &ynode{kind: 1, val: v, valT: t}
+		switch {
+		case isStringT(u):
+			n.tag = "!!str"
+		case isBoolT(u):
+			n.tag = "!!bool"
+		case isFloat(u):
+			n.tag = "!!float"
+		default:
+			n.tag = "!!int"
+		}
+		return n, nil
+	}
+	e.abort(abortEngine, fmt.Sprintf("yaml marshal of %v not modelled", t))
+	return nil, nil
+}
+
+func (e *Engine) ymarshalVia(m *ssa.Function, recv Value, depth int) (*ynode, Value) {
+	r := e.call(m, []Value{recv}, nil).(tuple)
+	if er, ok := r[1].(iface); ok && er.t != nil {
+		return nil, er
+	}
+	res := r[0].(iface)
+	if res.t == nil {
+		return &ynode{kind: 0}, nil
+	}
+	// a Marshaler returning itself would loop; crd's return plain strings/ints
+	if e.hasMarshalYAML(res.t) != nil && depth > 10 {
+		e.abort(abortEngine, "yaml marshal: MarshalYAML chain too deep")
+	}
+	return e.ymarshal(res.t, res.v, depth+1)
+}
+
+func (n *ynode) concrete() bool {
+	if n.kind == 1 && isSym(n.val) {
+		return false
+	}
+	for _, c := range n.items {
+		if !c.concrete() {
+			return false
+		}
+	}
+	return true
+}
+
+// native converts a fully concrete tree to a yaml.Node for real serialisation.
+func (n *ynode) native() *yaml.Node {
+	switch n.kind {
+	case 0:
+		return &yaml.Node{Kind: yaml.ScalarNode, Tag: "!!null", Value: "null"}
+	case 1:
+		out := &yaml.Node{Kind: yaml.ScalarNode, Tag: n.tag}
+		switch x := n.val.(type) {
+		case string:
+			out.Value = x
+		default:
+			out.Value = fmt.Sprintf("%v", x)
+		}
+		return out
+	case 2:
+		out := &yaml.Node{Kind: yaml.SequenceNode, Tag: "!!seq"}
+		for _, c := range n.items {
+			out.Content = append(out.Content, c.native())
+		}
+		return out
+	default:
+		out := &yaml.Node{Kind: yaml.MappingNode, Tag: "!!map"}
+		for i, c := range n.items {
+			out.Content = append(out.Content, &yaml.Node{Kind: yaml.ScalarNode, Tag: "!!str", Value: n.keys[i]}, c.native())
+		}
+		return out
+	}
+}
+
+// ydecodeDoc decodes a marshalled tree (with symbolic leaves) into dst of type t.
+func (e *Engine) ydecodeDoc(d *ydoc, t types.Type, dst *Value) Value {
+	var errs []string
+	er := e.ydecodeTree(d.root, t, dst, &errs)
+	return e.finishDecode(er, errs)
+}
+
+func (e *Engine) scalarNodeFor(n *ynode) *Value {
+	// engine-level yaml.Node carrying the (possibly symbolic) text of a scalar
+	nt := e.yamlNodeType()
+	st := under(nt).(*types.Struct)
+	sv := e.zero(nt).(structV)
+	var text Value
+	switch x := n.val.(type) {
+	case string, *SymStr:
+		text = x
+	case *smt.Term:
+		if x.S.K == smt.KBV {
+			if _, signed, _ := intInfo(n.valT); signed {
+				text = e.callModel("FormatInt", e.conv(types.Typ[types.Int], n.valT, x))
+			} else {
+				text = e.callModel("FormatUint", e.conv(types.Typ[types.Uint], n.valT, x))
+			}
+		} else {
+			e.abort(abortEngine, "yaml: symbolic bool/float scalar text")
+		}
+	default:
+		text = fmt.Sprintf("%v", x)
+	}
+	for i := 0; i < st.NumFields(); i++ {
+		switch st.Field(i).Name() {
+		case "Kind":
+			sv[i] = uint64(yaml.ScalarNode)
+		case "Tag":
+			sv[i] = n.tag
+		case "Value":
+			sv[i] = text
+		}
+	}
+	cell := new(Value)
+	*cell = sv
+	return cell
+}
+
+func (e *Engine) ydecodeTree(n *ynode, t types.Type, dst *Value, errs *[]string) Value {
+	if n.concrete() {
+		return e.ydecode(n.native(), t, dst, errs)
+	}
+	if pt, ok := under(t).(*types.Pointer); ok {
+		cell, _ := (*dst).(*Value)
+		if cell == nil {
+			cell = new(Value)
+			*cell = e.zero(pt.Elem())
+			e.set(dst, cell)
+		}
+		return e.ydecodeTree(n, pt.Elem(), cell, errs)
+	}
+	if m := e.hasUnmarshalYAML(t); m != nil {
+		if n.kind != 1 {
+			e.abort(abortEngine, "yaml: UnmarshalYAML on a non-scalar symbolic subtree")
+		}
+		r := e.call(m, []Value{dst, e.scalarNodeFor(n)}, nil)
+		if ri, ok := r.(iface); ok && ri.t != nil {
+			return ri
+		}
+		return iface{}
+	}
+	typeErr := func() Value {
+		*errs = append(*errs, fmt.Sprintf("cannot unmarshal into %v", t))
+		return iface{}
+	}
+	switch u := under(t).(type) {
+	case *types.Struct:
+		if n.kind != 3 {
+			return typeErr()
+		}
+		fields := yamlFields(u)
+		sv := (*dst).(structV)
+		for i, k := range n.keys {
+			for _, f := range fields {
+				if f.key == k {
+					if er := e.ydecodeTree(n.items[i], u.Field(f.index).Type(), &sv[f.index], errs); er.(iface).t != nil {
+						return er
+					}
+				}
+			}
+		}
+		return iface{}
+	case *types.Slice:
+		if n.kind != 2 {
+			return typeErr()
+		}
+		a := make([]Value, len(n.items))
+		for i := range a {
+			a[i] = e.zero(u.Elem())
+		}
+		for i, c := range n.items {
+			if er := e.ydecodeTree(c, u.Elem(), &a[i], errs); er.(iface).t != nil {
+				return er
+			}
+		}
+		e.set(dst, sliceV{a: a})
+		return iface{}
+	case *types.Map:
+		if n.kind != 3 {
+			return typeErr()
+		}
+		m, _ := (*dst).(*mapObj)
+		if m == nil {
+			m = &mapObj{keyT: u.Key(), valT: u.Elem(), idxFor: -1}
+			e.set(dst, m)
+		}
+		for i, k := range n.keys {
+			vc := new(Value)
+			*vc = e.zero(u.Elem())
+			if er := e.ydecodeTree(n.items[i], u.Elem(), vc, errs); er.(iface).t != nil {
+				return er
+			}
+			e.mapUpdate(m, k, *vc)
+		}
+		return iface{}
+	case *types.Basic:
+		if n.kind != 1 {
+			return typeErr()
+		}
+		switch {
+		case isStringT(u):
+			switch x := n.val.(type) {
+			case string, *SymStr:
+				e.set(dst, x)
+				return iface{}
+			}
+		default:
+			if _, _, ok := intInfo(u); ok && n.tag == "!!int" {
+				e.set(dst, e.conv(t, n.valT, n.val))
+				return iface{}
+			}
+		}
+	}
+	e.abort(abortEngine, fmt.Sprintf("yaml: decoding a symbolic subtree into %v not modelled", t))
+	return nil
+}
+
+func registerYAMLMarshal(e *Engine) {
+	e.intr[yamlPkg+".Marshal"] = func(e *Engine, fr *frame, args []Value, site ssa.CallInstruction) Value {
+		in := args[0].(iface)
+		if in.t == nil {
+			return tuple{sliceV{a: e.strToByteVals("null\n")}, iface{}}
+		}
+		root, er := e.ymarshal(in.t, in.v, 0)
+		if er != nil {
+			return tuple{sliceV{nil: true}, er}
+		}
+		if root.concrete() {
+			b, err := yaml.Marshal(root.native())
+			if err != nil {
+				return tuple{sliceV{nil: true}, e.newErr(err.Error())}
+			}
+			return tuple{sliceV{a: e.strToByteVals(string(b))}, iface{}}
+		}
+		// symbolic leaves: the text cannot be produced; hand out a placeholder whose
+		// identity leads Unmarshal back to the tree (node-tree level round trip)
+		bs := e.strToByteVals("#crdverif: document with symbolic scalars\n")
+		out := sliceV{a: bs}
+		e.yside().docs[&out.a[0]] = &ydoc{root: root}
+		return tuple{out, iface{}}
+	}
+}
